@@ -305,9 +305,15 @@ func wildOps(bin, work string, w *wildUnit, out *vl.Out) ([]*opLine, error) {
 		g, err := scanGoFile(mod, rel)
 		if err != nil {
 			out.Count("wild.unparsable_go")
-			continue // C01's business
+			return ls, nil // generated Go that does not parse is C01's business; no names, no text suite for this unit
 		}
 		gfs[fi] = g
+	}
+	for fi := range w.prog.Files {
+		if fr.asts[fi] != nil && gfs[fi] == nil {
+			out.Count("wild.missing_go_file")
+			return ls, nil
+		}
 	}
 	for fi, t := range fr.asts {
 		g := gfs[fi]
